@@ -11,7 +11,7 @@ from TotalDepth.common import Slice
 from TotalDepth.RP66V1.core import LogicalFile
 
 # channel name, rep code, units, dimensions
-CHANNELS = [(b'DEPT', F.SLONG, b'm', [1]), (b'AAAA', E.USHORT, b'', [2]), (b'BBBB', E.UNORM, b'mV', [1])]
+CHANNELS = [(b'DEPT', F.SLONG, b'm', [1]), (b'AAAA', E.USHORT, b'', [1, 2]), (b'BBBB', E.UNORM, b'mV', [1])]      # AAAA: rank 2 (count 2, first dimension 1)
 CH2 = [(b'TIME', E.UNORM, b's', [1]), (b'CCCC', E.USHORT, b'', [1])]
 
 
